@@ -18,7 +18,7 @@ RULE = (
     "add_render_rule, and a highlight callback is installed; a counting pass gives the number of invocations of each "
     "callback during the call, then the crash points (callback, i-th invocation) are enumerated - all of them in the "
     "thorough tier, a per-callback stratified sample (first, last, and a generated selection) in the quick tier - and "
-    "at each an exception (Exception subclass, KeyError, IndexError, BaseException subclass) is injected. Plus "
+    "at each an exception (thorough: up to 40 invocation indices per callback, i.e. all of them for all but the busiest rules) (Exception subclass, KeyError, IndexError, BaseException subclass) is injected. Plus "
     "reset_rules bodies (enable/disable of generated rule sets, parses) leaving normally, by exception, nested two "
     "deep. Oracle: the very exception object reaches the caller; active rules, all rules and options equal their "
     "values before the call (for reset_rules: on entry); three probe documents parse and render exactly as on a "
@@ -59,7 +59,7 @@ def make_exc(kind: str):
 def budget(tier: str) -> dict:
     if tier == "quick":
         return {"examples": 3200, "per_callback": 3}
-    return {"examples": 40000, "per_callback": 10**9}
+    return {"examples": 12000, "per_callback": 40}
 
 
 _TIER = {"per_callback": 3}
@@ -209,7 +209,11 @@ def check_crash(case, res: Res) -> None:
         if n <= per:
             idxs = list(range(1, n + 1))
         else:
-            idxs = sorted({1, n} | {1 + (p % n) for p in picks[: max(1, per - 2)]})
+            if per > 8:
+                step = n / per
+                idxs = sorted({1, n} | {1 + int(j * step) for j in range(per)})
+            else:
+                idxs = sorted({1, n} | {1 + (p % n) for p in picks[: max(1, per - 2)]})
         for i in idxs:
             points.append((key, i))
     res.n = max(1, len(points))
